@@ -1,1 +1,123 @@
-From Cfg Require Import Model.MapHub.
+(* C20 Memory map broker implements the map-state specification.
+   Property theorems only; proofs live in Proofs/MapRefine*.v, MapSweep.v,
+   MapExpiry*.v and MapCorollaries.v. *)
+From Coq Require Import List NArith ZArith Bool.
+From Cfg Require Import Model.MapHub Model.MapSpec Proofs.MapBase Proofs.MapExpiry Proofs.MapSweep Proofs.MapCorollaries.
+Import ListNotations.
+Open Scope N_scope.
+
+(* For ALL channel configurations and ALL sequences of publish (every subset
+   of idempotency / version / key mode / CAS / TTL refresh / delta options),
+   remove, clear, read-state, read-stream, clock advances and whole expiry
+   sweeps, everything the model of the memory map broker returns and
+   broadcasts, operation by operation, is what the reference map
+   (Model/MapSpec.v: state = fold of the unsuppressed operations, full log,
+   checks decided in the order version, key mode, CAS, one log entry and one
+   broadcast per accepted operation of a stream-backed channel, expiry in
+   deadline order) returns and broadcasts. *)
+Theorem C20_refines :
+  forall cfgs ops, forallb seq_op ops = true ->
+    run_obs cfgs hub0 ops = spec_obs cfgs sstate0 ops.
+Proof. exact refines. Qed.
+Print Assumptions C20_refines.
+
+(* Check order on the model, for every state: the reason returned by
+   mapHub.add is that of the first failing check among version, key mode,
+   compare-and-swap (so a stale version wins over a key-mode failure, which
+   wins over a position mismatch), and RNone iff all three pass. *)
+Theorem C20_check_order :
+  forall cf h ch k o h1 c h' p pp r tp,
+    add_ensure cf h ch = (h1, c) -> add cf h ch k o = (h', p, pp, r, tp) ->
+    let cur := aget key_eqb (c_state c) k in
+    let ep := s_epoch (c_stream c) in
+    (forall r1, chk_version cf k (po_ver o) (po_vep o) cur = Some r1 -> r = RVersion) /\
+    (forall r2, chk_version cf k (po_ver o) (po_vep o) cur = None -> chk_keymode k (po_mode o) cur = Some r2 -> r = r2) /\
+    (forall r3, chk_version cf k (po_ver o) (po_vep o) cur = None -> chk_keymode k (po_mode o) cur = None ->
+                chk_cas ep k (po_exp o) cur = Some r3 -> r = RMismatch) /\
+    (chk_version cf k (po_ver o) (po_vep o) cur = None -> chk_keymode k (po_mode o) cur = None ->
+     chk_cas ep k (po_exp o) cur = None -> r = RNone).
+Proof. exact check_order. Qed.
+Print Assumptions C20_check_order.
+
+(* A suppressed publish changes nothing a client can observe: no broadcast,
+   every channel's retained stream and top offset are the same, every key has
+   the same publication / version (the only permitted effect is the documented
+   keep-alive: with RefreshTTLOnSuppress a key_exists suppression moves the
+   deadline of the existing entry; otherwise entries are identical). *)
+Theorem C20_suppressed_publish_changes_nothing :
+  forall cfgs h ch k o h' p r cur,
+    publish cfgs h ch k o = (h', URes p true r cur) ->
+    unchanged h h' /\ (r <> RKeyExists \/ po_refresh o = false -> same_entries h h').
+Proof. exact publish_suppressed_unchanged. Qed.
+Print Assumptions C20_suppressed_publish_changes_nothing.
+
+(* A suppressed remove leaves the whole broker state untouched. *)
+Theorem C20_suppressed_remove_changes_nothing :
+  forall cfgs h ch k o h' p r cur, remove cfgs h ch k o = (h', URes p true r cur) -> h' = h.
+Proof. exact remove_suppressed_unchanged. Qed.
+Print Assumptions C20_suppressed_remove_changes_nothing.
+
+(* An unsuppressed publish is broadcast exactly once; on a stream-backed
+   channel it appends exactly one stream entry whose offset is the previous
+   top + 1, and result position, stream entry, state entry and broadcast carry
+   that same offset; other channels and other keys are untouched. *)
+Theorem C20_accepted_publish_one_entry_one_broadcast :
+  forall cfgs h ch k o h' p r cur cf,
+    publish cfgs h ch k o = (h', URes p false r cur) -> cfg_of cfgs ch = CfgOk cf ->
+    r = RNone /\ cur = None /\
+    exists q prev,
+      h_bcast h' = h_bcast h ++ [mkBc ch q p (po_delta o) prev] /\
+      p_key q = k /\ p_removed q = false /\ p_data q = po_data o /\
+      (forall i, i <> ch -> items_at h' i = items_at h i /\ top_at h' i = top_at h i) /\
+      (forall i k', (i, k') <> (ch, k) -> vis_at h' i k' = vis_at h i k') /\
+      (k <> [] -> exists ver vep, vis_at h' ch k = Some (q, ver, vep)) /\
+      (has_stream (cf_mode cf) = true ->
+         p_off q = fst p /\ fst p = top_at h ch + 1 /\ top_at h' ch = fst p /\
+         items_at h' ch = skipn (length (items_at h ch ++ [q]) - N.to_nat (cf_size cf)) (items_at h ch ++ [q])) /\
+      (has_stream (cf_mode cf) = false -> items_at h' ch = items_at h ch /\ top_at h' ch = top_at h ch).
+Proof. exact publish_accepted. Qed.
+Print Assumptions C20_accepted_publish_one_entry_one_broadcast.
+
+Theorem C20_accepted_remove_one_entry_one_broadcast :
+  forall cfgs h ch k o h' p r cur cf,
+    remove cfgs h ch k o = (h', URes p false r cur) -> cfg_of cfgs ch = CfgOk cf ->
+    r = RNone /\ cur = None /\
+    exists q e,
+      h_bcast h' = h_bcast h ++ [mkBc ch q p false None] /\ entry_at h ch k = Some e /\
+      p_key q = k /\ p_removed q = true /\
+      (forall i, i <> ch -> items_at h' i = items_at h i /\ top_at h' i = top_at h i) /\
+      (forall i k', entry_at h' i k' = if ck_eqb (i, k') (ch, k) then None else entry_at h i k') /\
+      (has_stream (cf_mode cf) = true ->
+         p_off q = fst p /\ fst p = top_at h ch + 1 /\ top_at h' ch = fst p /\
+         items_at h' ch = skipn (length (items_at h ch ++ [q]) - N.to_nat (cf_size cf)) (items_at h ch ++ [q])) /\
+      (has_stream (cf_mode cf) = false -> items_at h' ch = items_at h ch /\ top_at h' ch = top_at h ch).
+Proof. exact remove_accepted. Qed.
+Print Assumptions C20_accepted_remove_one_entry_one_broadcast.
+
+(* ---- non-vacuity: concrete runs hitting every suppress reason, expiry, and
+   both suppressed / accepted outcomes ---- *)
+Definition ex_cfgs := [mkRaw 3 0 2 0 0 true; mkRaw 2 2 3 0 0 false].
+Definition ex_po (data ver : N) (m : kmode) (exp : option pos) := mkPO 0 0 data None false ver 0 0%Z m false exp.
+
+Example C20_ex_check_order :
+  map fst (run_obs ex_cfgs hub0
+    [OPublish 0 [97] (ex_po 1 5 KReplace None);
+     OPublish 0 [97] (ex_po 2 3 KIfNew (Some (9, 1)));       (* stale version + key exists + bad CAS *)
+     OPublish 0 [97] (ex_po 3 0 KIfNew (Some (9, 1)));       (* key exists + bad CAS *)
+     OPublish 0 [97] (ex_po 4 0 KReplace (Some (9, 1)));     (* bad CAS *)
+     OPublish 0 [97] (ex_po 5 0 KReplace (Some (1, 1)))])    (* accepted *)
+  = [RUpd (URes (1, 1) false RNone None);
+     RUpd (URes (1, 1) true RVersion None);
+     RUpd (URes (1, 1) true RKeyExists None);
+     RUpd (URes (1, 1) true RMismatch (Some (1, 1)));
+     RUpd (URes (2, 1) false RNone None)].
+Proof. vm_compute. reflexivity. Qed.
+
+Example C20_ex_expiry :
+  map fst (run_obs ex_cfgs hub0
+    [OPublish 1 [97] (ex_po 1 0 KReplace None); OAdvance 2; OSweep;
+     OReadState 1 None [] (-1)%Z [] false; OReadStream 1 None (-1)%Z false])
+  = [RUpd (URes (1, 1) false RNone None); RUnit; RUnit;
+     RState (StOk [] (2, 1) []);
+     RStream (SOk [mkPub [97] 1 1 None false 0%Z; mkPub [97] 2 0 None true 0%Z] (2, 1))].
+Proof. vm_compute. reflexivity. Qed.
